@@ -130,3 +130,13 @@ def row_pattern(view):
         for k in range(colind[c], colind[c + 1]):
             rows[row[k]].add(c)
     return rows
+
+
+def phys_ok(ph, limit=1e6):
+    """every physical read-back finite and of moderate size (a trajectory that blows up at a random point makes every
+    relative comparison meaningless: round-off differences between two correct evaluations are amplified alike)"""
+    for k, v in ph.items():
+        a = np.asarray(v, dtype=float)
+        if a.size and (not np.all(np.isfinite(a)) or float(np.max(np.abs(a))) > limit):
+            return False
+    return True
